@@ -224,6 +224,14 @@ def c07_only_if(Pv, tier, timeout_s=300):
     return s
 
 
+def c07_if(Pv, tier, timeout_s=300):
+    """'if' direction: every child vector satisfying A(x) (and the C01 leaf guarantees) has a witness"""
+    n = Pv.n
+    s = completeness(Pv.sx, f"C07 N={n}", f"N={n}: compatible + replay-free + sums < 2^32  =>  the wrapper is satisfiable",
+                     Pv.A, extra=Pv.precond() + Pv.sp.axioms(), timeout_s=timeout_s)
+    return s
+
+
 def c08(Pv, tier, timeout_s=300):
     n = Pv.n
     s = Session(f"C08 N={n}", Pv.base(), timeout_s=timeout_s, verbose=False)
@@ -314,6 +322,11 @@ def c12(Pb, tier, timeout_s=120):
         s.holds(f"{tag}: inner {i} owns nullifier segment {i} (forwarded in order, zeroed if all-dummy)",
                 z3.And([Pb.pis[k] == Pb.expected[k] for k in range(lo, lo + 4 * n)]))
     return s
+
+
+def c13_if(Pb, tier, timeout_s=120):
+    tag = f"M={Pb.m},N={Pb.n}"
+    return completeness(Pb.sx, f"C13 {tag}", f"{tag}: real inners agree on block hash, asset, fee  =>  the wrapper is satisfiable", Pb.A, timeout_s=timeout_s)
 
 
 def c13_only_if(Pb, tier, timeout_s=120):
